@@ -539,7 +539,10 @@ impl<'a> Emitter<'a> {
                 t.push_str(&format!(" {} {}", self.kw("STEP"), self.expr(st, false)));
             }
             self.out.starts.insert(s.id, (self.row(), self.col()));
+            let c0 = self.col();
             self.cur.push_str(&t);
+            let c1 = self.col().saturating_sub(1).max(c0);
+            self.out.header_spans.insert((s.id, 0), (self.row(), c0, c1));
             for b in body {
                 self.cur.push_str(" : ");
                 match &b.kind {
